@@ -56,6 +56,26 @@ Theorem C15_junk_independent_env : forall cfg l r,
 Proof. exact junk_env_is_identity. Qed.
 Print Assumptions C15_junk_independent_env.
 
+(* ... numeric extremes of the sortlist prefix length: an entry "address/N" with N above 128 or with
+   more than three digits (129, 255, 256, 264, 999, 2^32+8, ...; sortlist_has_bad_mask) makes the
+   line junk by C15_junk_independent (class JSortlistMask), and given to ares_set_sortlist() it is
+   refused with an error other than ENOMEM while the channel - its sortlist included - stays as it
+   was.  The prefix length is compared as an unbounded integer BEFORE it is narrowed to the
+   unsigned char field. *)
+Theorem C15_sortlist_prefix_extremes : forall nf c s,
+  sortlist_has_bad_mask s = true ->
+  (exists st, parse_sortlist nf s = Err st /\ st <> ARES_ENOMEM /\ st <> ARES_SUCCESS) /\
+  (exists st, chan_set_sortlist nf c s = Ok (st, c) /\ st <> ARES_ENOMEM /\ st <> ARES_SUCCESS).
+Proof. intros nf c s H. exact (conj (parse_sortlist_bad_mask nf s H) (set_sortlist_bad_mask nf c s H)). Qed.
+Print Assumptions C15_sortlist_prefix_extremes.
+
+Theorem C15_sortlist_prefix_extremes_inhabited :
+  junk_class_resolv (B "sortlist 10.0.0.0/264") = Some JSortlistMask /\
+  junk_class_resolv (B "sortlist 10.0.0.0/8 2001:db8::/640") = Some JSortlistMask /\
+  sortlist_has_bad_mask (B "10.0.0.0/4294967304") = true /\ sortlist_has_bad_mask (B "10.0.0.0/32;1.2.3.4/128") = false.
+Proof. vm_compute. repeat split; reflexivity. Qed.
+Print Assumptions C15_sortlist_prefix_extremes_inhabited.
+
 (* instances that the code as pinned got wrong (now consequences of the theorems above) *)
 Theorem C15_fixed_instances :
   (parse_resolv_line nf None cfg_with_server (B "search ,") = Ok cfg_with_server) /\
